@@ -100,6 +100,8 @@ def value(v, seed):
         if isinstance(v, list):
             return [value(x, seed) for x in v]
         return v
+    if v["$"] in ("adaptive", "adaptive_expr"):
+        return _adaptive_value(v, seed)
     import json
 
     key = (json.dumps(v, sort_keys=True), int(seed))
@@ -107,6 +109,34 @@ def value(v, seed):
         _VALUE_CACHE[key] = _value(v, seed)
     got = _VALUE_CACHE[key]
     return dict(got) if isinstance(got, dict) else got.copy()
+
+
+# what the outcome-dependent parameters of the current execution returned: (outcomes, returned_invalid)
+ADAPTIVE_LOG = []
+
+
+def _adaptive_value(v, seed):
+    """Outcome-dependent parameter (family adaptive_param, see c13_adaptive).  "adaptive": a callable
+    of the outcome tuple returning the invalid value when `when` == "always" or x[-1] == when, else the
+    valid one ("never": always valid), logging every call; "adaptive_expr": the same as an expression
+    string over x (scalars only)."""
+    when = v["when"]
+    if v["$"] == "adaptive_expr":
+        g, b = float(v["good"]), float(v["bad"])
+        if when == "never":
+            return repr(g)
+        if when == "always":
+            return repr(b)
+        return "%r + (%r) * (x[-1] == %d)" % (g, b - g, int(when))
+    bad = value(v["bad"], seed)
+    good = value(v["good"], seed)
+
+    def param(x):
+        is_bad = when == "always" or (when != "never" and int(x[-1]) == int(when))
+        ADAPTIVE_LOG.append((tuple(x), bool(is_bad)))
+        return bad if is_bad else good
+
+    return param
 
 
 def _value(v, seed):
